@@ -2,6 +2,7 @@
 //! See /verif/DESIGN.md.
 
 mod ctx;
+mod gen;
 mod prng;
 mod registry;
 mod report;
